@@ -202,6 +202,7 @@ var (
 	verifClock   func() time.Time
 	verifWordEnv func(seed uint64, idx int, n int, real uint64) uint64
 	verifBufObs  func(buf []uint64, persist bool)
+	verifSeedObs func(seed uint64)
 	verifSeeds   = map[*randomBitStream]*verifSeedState{}
 )
 
@@ -216,6 +217,7 @@ func VerifSetWordEnv(f func(seed uint64, idx int, n int, real uint64) uint64) {
 	verifSeeds = map[*randomBitStream]*verifSeedState{}
 }
 func VerifSetBufObserver(f func(buf []uint64, persist bool)) { verifBufObs = f }
+func VerifSetSeedObserver(f func(seed uint64))               { verifSeedObs = f }
 
 func verifNow() time.Time {
 	if verifClock != nil {
@@ -228,6 +230,9 @@ func verifUntil(t time.Time) time.Duration { return t.Sub(verifNow()) }
 func verifSince(t time.Time) time.Duration { return verifNow().Sub(t) }
 
 func verifSeeded(s *randomBitStream, seed uint64) {
+	if verifSeedObs != nil {
+		verifSeedObs(seed)
+	}
 	if verifWordEnv == nil {
 		return
 	}
